@@ -63,7 +63,12 @@ JUNK = [b"\x00", b"\n", b"\xff" * 8, b"x" * 16, b"\x00" * 512, b"\x00" * 4096, b
 def truncation_points(label, n, tier):
     if n <= 9000:
         pts = range(0, n)
-        return list(pts) if tier == "thorough" or n <= 800 else sorted(set(list(range(0, 300)) + list(range(300, n, 29)) + list(range(n - 24, n))))
+        if tier == "thorough" or n <= 400:
+            return list(pts)
+        if n <= 800:
+            # quick tier, record files of two records: every length in the first 120 bytes and the last 24, every 3rd between
+            return sorted(set(list(range(0, 120)) + list(range(120, n, 3)) + list(range(n - 24, n))))
+        return sorted(set(list(range(0, 300)) + list(range(300, n, 29)) + list(range(n - 24, n))))
     # large formats: every length within the header region, every chunk/object-size step, the tail
     if tier == "thorough":
         return sorted(set(list(range(0, 4200)) + list(range(4200, n, 512)) + list(range(n - 16, n))))
@@ -112,7 +117,7 @@ def run(tier, seed, build=True):
                 cases.append((label, "truncate", fname, ("trunc", n)))
             if len(data) <= 200000 or tier == "thorough":
                 reps = [0x00, 0xFF, "x1", "x80"]
-                for o in (offs if (tier == "thorough" or len(data) < 1000000) else offs[::6]):
+                for o in (offs if (tier == "thorough" or len(data) < 1000000) else offs[::6])[:: (2 if (tier == "quick" and label == "evtx") else 1)]:
                     if o >= len(data):
                         continue
                     vals = range(256) if (label in ("utmp",) and o < 8 and (tier == "thorough" or o < 2)) else reps
@@ -143,7 +148,7 @@ def run(tier, seed, build=True):
                 if nm != fname:
                     cases.append((label, "misnamed", nm, ("asis",)))
         # all short byte strings over a reduced alphabet under each type-selecting name
-        alpha = [0x00, 0x0A, 0x30, 0x61, 0x80, 0xFF]
+        alpha = [0x00, 0x0A, 0x30, 0x61, 0x80, 0xFF] if tier != "quick" else [0x00, 0x0A, 0x30, 0x80, 0xFF]
         lens = [4] if tier == "quick" else [6]
         short_names = ["s.log", "wtmp", "lastlog", "acct", "j.journal", "e.evtx", "s.log.gz", "s.log.xz", "s.log.bz2", "s.log.lz4", "s.tar"]
         if tier == "quick":
